@@ -140,7 +140,7 @@ def render(prog, observer=True):
 
 # ----------------------------------------------------------------------------- real run
 _ready = [False]
-RUN = {"log": None, "obs": None}
+RUN = {"log": None, "obs": None, "who": None}     # "who": the framer object of every event, for the oracle only
 
 
 def setup():
@@ -153,6 +153,7 @@ def setup():
     def ckrec(self, tag="", **kw):
         fr = self._act.frame
         RUN["log"].append("E %s %s %s %s" % (fr.framer.name, fr.name, self._act.context, tag))
+        RUN["who"].append(fr.framer)
 
     @doing.doify('CkIo')
     def ckio(self, **kw):
@@ -161,6 +162,7 @@ def setup():
         v = 1 if v is None else v + 1
         self.val.value = v
         RUN["log"].append("E %s %s %s io=%d" % (fr.framer.name, fr.name, self._act.context, v))
+        RUN["who"].append(fr.framer)
 
     @doing.doify('CkObs')
     def ckobs(self, **kw):
@@ -225,6 +227,7 @@ class Observer:
         self.paths = []         # (framer name, uid, frame, item, sub, ref, share name) for O2
         self.snaps = []         # per tick: {"auxes": {(framer uid, frame): [uid…]}, "names": set, "live": {uid: name}}
         self.info = {}          # uid -> dict(name, tag, insular, razeable, original, def)
+        self.who = []           # per tick: the framer object of every event of that tick
 
     def house(self):
         return self.sk.houses[0]
@@ -319,6 +322,8 @@ class Observer:
         out = self.out
         out.extend(RUN["log"])
         del RUN["log"][:]
+        self.who.append(list(RUN["who"]))
+        del RUN["who"][:]
         self.snapshot(out)
         out.append("T %d" % self.count)
         self.count += 1
@@ -378,6 +383,7 @@ def run_real(prog):
     else:
         obs = Observer(sk, prog, prog["ticks"])
         RUN["log"] = []
+        RUN["who"] = []
         RUN["obs"] = obs
         lines = ["BUILD ok"]
         obs.snapshot(lines)          # the build dump: every framer object reachable before the first tick
@@ -393,6 +399,8 @@ def run_real(prog):
             err = type(ex).__name__
         lines.extend(RUN["log"])
         del RUN["log"][:]
+        obs.who.append(list(RUN["who"]))
+        del RUN["who"][:]
         if err:
             lines.append("ERR %s" % err)
         else:
@@ -453,3 +461,620 @@ def encode(prog):
                 else:
                     t += ["a", it["ctx"]] + enc_act(it["a"])
     return " ".join(t)
+
+
+# ----------------------------------------------------------------------------- generator
+def rec_item(ctx, tag):
+    return {"t": "act", "ctx": ctx, "a": {"k": "rec", "tag": tag}}
+
+
+def base_items():
+    return [rec_item("enter", "e"), rec_item("recur", "r"), rec_item("exit", "x")]
+
+
+def act_item(ctx, a):
+    return {"t": "act", "ctx": ctx, "a": a}
+
+
+R_CNT = {"p": "cnt", "rel": "framer"}
+R_LIM = {"p": "lim", "rel": "frame"}
+WREFS = [{"p": "x", "rel": "none"}, {"p": "y", "rel": "me"}, {"p": "g.z", "rel": "abs"}, {"p": "w", "rel": "framer"},
+         {"p": "v", "rel": "frame"}, {"p": "d.deep", "rel": "none"}]
+MOOTS = ["ma", "mb", "mc"]
+VIAS_FRAMER = [None, None, "ina", "inb.deep"]
+VIAS_FRAME = [None, None, None, "fin"]
+VIAS_CLONE = [None, None, "mine", "zed", "yy.deep"]
+
+
+def gen_need(rng, fr_tags, has_aux, counted, shared_reads):
+    r = rng.random()
+    if r < 0.35:
+        n = {"k": "re", "op": rng.choice([">=", ">=", ">", "=="]), "v": rng.choice([1, 1, 2, 3])}
+    elif r < 0.5:
+        n = {"k": "el", "op": rng.choice([">=", ">=", ">"]), "v": rng.choice([1, 2, 3])}
+    elif r < 0.65 and counted:
+        n = {"k": "sh", "ref": dict(R_CNT), "op": rng.choice([">=", ">=", "==", ">"]), "v": rng.choice([1, 2, 3])}
+    elif r < 0.8 and has_aux:
+        n = {"k": rng.choice(["all", "all", "any"])}
+    elif r < 0.9 and fr_tags:
+        n = {"k": "aux", "tag": rng.choice(fr_tags)}
+    elif shared_reads:
+        n = {"k": "sh", "ref": {"p": "x", "rel": "none"}, "op": "==", "v": rng.choice([1, 2])}
+    else:
+        n = {"k": "re", "op": ">=", "v": rng.choice([1, 2])}
+    if rng.random() < 0.1:
+        n["neg"] = True
+    return n
+
+
+def gen_body(rng, name, letter, later, is_host, shared_reads):
+    """frames of one framer.  `later` = moots this framer may clone / rear"""
+    nfr = rng.choice([2, 3, 3, 4]) if is_host else rng.choice([1, 2, 2, 3])
+    nested = is_host or rng.random() < 0.3
+    frames = []
+    if nested:
+        frames.append({"name": letter + "top", "over": None, "via": rng.choice(VIAS_FRAME), "items": base_items()})
+    kids = []
+    for k in range(nfr):
+        f = {"name": "%s%d" % (letter, k), "over": (letter + "top") if nested else None, "via": rng.choice(VIAS_FRAME),
+             "items": base_items()}
+        frames.append(f)
+        kids.append(f)
+    first = kids[0]
+    tags = []
+    counted = rng.random() < 0.7
+    if counted:
+        first["items"].append(act_item("enter", {"k": "put", "v": 0, "ref": dict(R_CNT)}))
+    ntag = 0
+    mine_count = {}
+    for k, f in enumerate(kids):
+        items = f["items"]
+        # clone clauses
+        if later and rng.random() < (0.75 if is_host else 0.4):
+            for _ in range(rng.choice([1, 1, 2, 3]) if is_host else 1):
+                m = rng.choice(later)
+                if rng.random() < 0.3:
+                    items.append({"t": "aux", "of": m, "as": "mine", "via": rng.choice(VIAS_CLONE)})
+                else:
+                    ntag += 1
+                    tag = ("c%d" if is_host else "n%d") % ntag
+                    tags.append(tag)
+                    items.append({"t": "aux", "of": m, "as": tag, "via": rng.choice(VIAS_CLONE)})
+        # rear / raze
+        others = [g["name"] for g in kids if g is not f]
+        if later and others and rng.random() < (0.45 if is_host else 0.2):
+            for _ in range(rng.choice([1, 1, 2])):
+                target = rng.choice(others) if rng.random() < 0.93 else f["name"] if False else rng.choice(others + ([letter + "top"] if nested else []))
+                items.append(act_item(rng.choice(["enter", "enter", "recur", "exit", "precur"]),
+                                      {"k": "rear", "of": rng.choice(later), "frame": target}))
+        if later and rng.random() < (0.4 if is_host else 0.2):
+            tf = rng.choice([None, None] + [g["name"] for g in kids])
+            items.append(act_item(rng.choice(["enter", "exit", "exit", "recur", "precur"]),
+                                  {"k": "raze", "who": rng.choice(["all", "all", "first", "last"]), "frame": tf}))
+        # store acts
+        for _ in range(rng.choice([0, 1, 1, 2])):
+            r = rng.random()
+            if r < 0.3 and counted:
+                items.append(act_item(rng.choice(["recur", "recur", "enter", "exit"]), {"k": "inc", "ref": dict(R_CNT), "v": rng.choice([1, 1, 2])}))
+            elif r < 0.45:
+                items.append(act_item("enter", {"k": "put", "v": rng.choice([0, 1, 5]), "ref": dict(R_LIM)}))
+                if rng.random() < 0.5:
+                    items.append(act_item("recur", {"k": "inc", "ref": dict(R_LIM), "v": 1}))
+            elif r < 0.6:
+                items.append(act_item(rng.choice(["recur", "enter"]), {"k": "io"}))
+            elif r < 0.9:
+                items.append(act_item(rng.choice(["enter", "recur", "exit"]), {"k": "put", "v": rng.choice([1, 2, 7]), "ref": dict(rng.choice(WREFS))}))
+            else:
+                items.append(rec_item(rng.choice(["precur", "renter", "rexit"]), rng.choice(["p", "q"])))
+            if shared_reads and rng.random() < 0.3:
+                items.append(act_item("recur", {"k": "inc", "ref": {"p": "x", "rel": "none"}, "v": 1}))
+        if not is_host and rng.random() < (0.6 if k == len(kids) - 1 else 0.15):
+            items.append(act_item("enter", {"k": "done"}))
+    # transitions last (after the acts, so that precur acts come first) — order inside preacts still varies
+    for k, f in enumerate(kids):
+        has_aux = any(it["t"] == "aux" for it in f["items"]) or any(
+            it["t"] == "act" and it["a"]["k"] == "rear" and it["a"]["frame"] == f["name"] for g in kids for it in g["items"])
+        if k < len(kids) - 1:
+            if rng.random() < 0.9:
+                needs = [gen_need(rng, tags, has_aux, counted, shared_reads) for _ in range(rng.choice([1, 1, 1, 2]))]
+                f["items"].append({"t": "go", "far": rng.choice(["next", "next", kids[k + 1]["name"]]), "needs": needs})
+            if rng.random() < 0.2:
+                f["items"].append({"t": "go", "far": "next", "needs": [{"k": "el", "op": ">=", "v": rng.choice([3, 4])}]})
+        else:
+            if rng.random() < (0.55 if is_host else 0.3):
+                far = rng.choice([kids[0]["name"], kids[0]["name"], "me", rng.choice(kids)["name"]])
+                f["items"].append({"t": "go", "far": far,
+                                   "needs": [gen_need(rng, tags, has_aux, counted, shared_reads)] if rng.random() < 0.8 else
+                                   [{"k": "re", "op": ">=", "v": 2}]})
+        if rng.random() < 0.3:
+            rng.shuffle(f["items"])
+    return frames, kids[0]["name"]
+
+
+def gen_prog(rng):
+    shared_reads = rng.random() < 0.15
+    nm = rng.choice([1, 2, 2, 3])
+    nh = rng.choice([1, 1, 2])
+    framers = []
+    moots = MOOTS[:nm]
+    for h in range(nh):
+        name = "h" + "ab"[h]
+        frames, first = gen_body(rng, name, "fg"[h], moots, True, shared_reads)
+        framers.append({"name": name, "sched": "active", "first": first, "via": rng.choice([None, "hin"]), "frames": frames})
+    if rng.random() < 0.15:
+        # an ordinary auxiliary framer used by one host frame
+        frames, first = gen_body(rng, "px", "p", [], False, shared_reads)
+        framers.append({"name": "px", "sched": "aux", "first": first if rng.random() < 0.5 else None, "via": None, "frames": frames})
+        kids = [f for f in framers[0]["frames"] if f["over"]]
+        rng.choice(kids)["items"].insert(3, {"t": "aux", "of": "px", "as": None, "via": None})
+    for i, m in enumerate(moots):
+        frames, first = gen_body(rng, m, "abc"[i], moots[i + 1:], False, shared_reads)
+        explicit = frames[0]["name"] != first or rng.random() < 0.3
+        framers.append({"name": m, "sched": "moot", "first": first if explicit else None, "via": rng.choice(VIAS_FRAMER), "frames": frames})
+    rng.shuffle(framers) if rng.random() < 0.2 else None
+    return {"ticks": rng.choice([4, 6, 8, 10]), "framers": framers, "shared_reads": shared_reads}
+
+
+def malform(rng, prog):
+    """one script error the builder must report (and the model must predict)"""
+    p = copy.deepcopy(prog)
+    hosts = [f for f in p["framers"] if f["sched"] == "active"]
+    host = rng.choice(hosts)
+    kid = rng.choice([f for f in host["frames"] if f["over"]] or host["frames"])
+    k = rng.choice(["dup-tag", "unknown-orig", "not-moot", "bad-tag-need", "rear-noframe", "rear-me", "bad-first",
+                    "name-clash", "next-of-last", "tag-is-aux-name"])
+    if k == "dup-tag":
+        kid["items"] += [{"t": "aux", "of": "ma", "as": "dd", "via": None}, {"t": "aux", "of": "ma", "as": "dd", "via": None}]
+    elif k == "unknown-orig":
+        kid["items"].append({"t": "aux", "of": "nosuch", "as": "dd", "via": None})
+    elif k == "not-moot":
+        kid["items"].append({"t": "aux", "of": host["name"], "as": "dd", "via": None})
+    elif k == "bad-tag-need":
+        kid["items"].append({"t": "go", "far": "me", "needs": [{"k": "aux", "tag": "nosuch"}]})
+    elif k == "rear-noframe":
+        kid["items"].append(act_item("enter", {"k": "rear", "of": "ma", "frame": "nosuch"}))
+    elif k == "rear-me":
+        kid["items"].append(act_item("enter", {"k": "rear", "of": "ma", "frame": "me"}))
+    elif k == "bad-first":
+        host["first"] = "nosuch"
+    elif k == "name-clash":
+        p["framers"].append({"name": host["name"] + "_dd", "sched": "aux", "first": None, "via": None,
+                             "frames": [{"name": "k0", "over": None, "via": None, "items": base_items()}]})
+        kid["items"].append({"t": "aux", "of": "ma", "as": "dd", "via": None})
+    elif k == "next-of-last":
+        host["frames"][-1]["items"].append({"t": "go", "far": "next", "needs": []})
+    else:
+        p["framers"].append({"name": "qq", "sched": "aux", "first": None, "via": None,
+                             "frames": [{"name": "k0", "over": None, "via": None, "items": base_items()}]})
+        kid["items"] += [{"t": "aux", "of": "qq", "as": None, "via": None}, {"t": "aux", "of": "ma", "as": "qq", "via": None}]
+    p["malformed"] = k
+    return p
+
+
+# ----------------------------------------------------------------------------- the oracle (implementation only)
+def split_ticks(lines):
+    """[(tick index or 'stop', [lines of that tick])]; the lines before the first `T` marker of tick 0 include the build dump"""
+    ticks, cur = [], []
+    for l in lines:
+        if l.startswith("T "):
+            ticks.append((int(l[2:]), cur))
+            cur = []
+        elif l == "END" or l.startswith("ERR"):
+            break
+        else:
+            cur.append(l)
+    ticks.append(("stop", cur))
+    return ticks
+
+
+def events_of(lines):
+    """[(tick, framer, frame, ctx, tag)] (tick of the stopping pass = last tick + 1)"""
+    out, last = [], -1
+    for t, ls in split_ticks(lines):
+        tt = last + 1 if t == "stop" else t
+        for l in ls:
+            if l.startswith("E "):
+                _, fr, f, ctx, tag = l.split(" ")
+                out.append((tt, fr, f, ctx, tag))
+        if t != "stop":
+            last = t
+    return out
+
+
+def mine_tag(host, frame_name, item_index):
+    """the tag buildAux gives an `as mine` clause: <orig><count>, counted over the framer's earlier moots"""
+    moots = []
+    for f in host["frames"]:
+        for i, it in enumerate(f["items"]):
+            if it["t"] != "aux" or not it.get("as"):
+                continue
+            if it["as"] == "mine":
+                n = 1
+                while "%s%d" % (it["of"], n) in moots:
+                    n += 1
+                tag = "%s%d" % (it["of"], n)
+            else:
+                tag = it["as"]
+            if f["name"] == frame_name and i == item_index:
+                return tag
+            moots.append(tag)
+    return None
+
+
+def rename_prefix(name, old, new):
+    if name == old:
+        return new
+    if name.startswith(old + "_"):
+        return new + name[len(old):]
+    return name
+
+
+def alone_program(prog, hi, fi, ii):
+    """the program with clone clause (host hi, frame fi, item ii) replaced by an ordinary auxiliary that is a textual
+    copy of the original; returns (program, name of the copy, name the clone has in `prog`)"""
+    p = copy.deepcopy(prog)
+    host = p["framers"][hi]
+    it = host["frames"][fi]["items"][ii]
+    moot = [f for f in p["framers"] if f["name"] == it["of"]][0]
+    tag = mine_tag(prog["framers"][hi], host["frames"][fi]["name"], ii)
+    cname = "%s_%s" % (host["name"], tag)
+    aname = "q" + moot["name"]
+    cp = copy.deepcopy(moot)
+    cp["name"], cp["sched"] = aname, "aux"
+    via = it.get("via")
+    cp["via"] = moot.get("via") if via == "mine" else via
+    host["frames"][fi]["items"][ii] = {"t": "aux", "of": aname, "as": None, "via": None}
+    for f in host["frames"]:
+        for x in f["items"]:
+            if x["t"] == "go":
+                for n in x["needs"]:
+                    if n["k"] == "aux" and n["tag"] == tag:
+                        n["tag"] = aname
+    p["framers"].append(cp)
+    return p, aname, cname
+
+
+def forever_program(prog, moot_name):
+    """the original run as an ordinary auxiliary of a frame that is never left"""
+    moots = [copy.deepcopy(f) for f in prog["framers"] if f["sched"] == "moot"]
+    cp = copy.deepcopy([m for m in moots if m["name"] == moot_name][0])
+    cp["name"], cp["sched"] = "q" + moot_name, "aux"
+    host = {"name": "zh", "sched": "active", "first": "w", "via": None,
+            "frames": [{"name": "w", "over": None, "via": None, "items": base_items() + [{"t": "aux", "of": cp["name"], "as": None, "via": None}]}]}
+    return {"ticks": prog["ticks"] + 2, "framers": [host, cp] + moots}
+
+
+def relative_refs_ok(obs):
+    """O2: every framer- / frame- / actor-relative reference resolves to the text's path with the own name substituted"""
+    for (fname, u, frame, i, j, ref, sname) in obs.paths:
+        if ref["rel"] == "framer":
+            want = "framer.%s.%s" % (fname, ref["p"])
+        elif ref["rel"] == "frame":
+            want = "framer.%s.frame.%s.%s" % (fname, frame, ref["p"])
+        else:
+            continue
+        if sname is None or sname.strip(".") != want:
+            return "O2: framer %s frame %s item %d: relative reference `%s` resolves to %r, the original's path with the own name is %r" % (
+                fname, frame, i, ref_text(ref), sname, want)
+    for t, snap in enumerate(obs.snaps):
+        names = list(snap["live"].values())
+        if len(set(names)) != len(names):
+            dup = sorted(n for n in set(names) if names.count(n) > 1)
+            return "O2: tick %d: two live framer objects are both named %s (their relative shares coincide)" % (t, dup)
+    return None
+
+
+class CHECK(core.Check):
+    PROPERTY = "C12"
+    LEAN_MODULES = ["IofloModel.Props.C12"]
+    ENGINE = "clones"
+    N_QUICK = 60
+    N_THOROUGH = 1200
+    N_SEARCH = 60
+    RULE = ("generated programs: 1-2 active hosts (a top frame with 2-4 child frames, looping transitions on recurred / "
+            "elapsed / share / all|any|aux TAG is done) that clone 1-3 moot framers with named tags and `mine`, via none / "
+            "mine / two inodes, rear them into sibling frames and raze all|first|last; moots (1-3 frames, optional over "
+            "frame, framer and frame inodes) that clone, rear and raze later moots, count in framer- and frame-relative "
+            "shares, write to inode-relative and absolute shares, use an actor-relative ioinit, say `done me`; every frame "
+            "records enter / recur / exit; 15 % of the programs also read shared (non-relative) data; 10 % carry one script "
+            "error (duplicate tag, unknown / non-moot original, unknown tag in a need, bad rear frame, bad first, clone "
+            "name clash, next of last, tag equal to a plain aux). non-trivial = built, some clone was entered, distinct by program")
+    TRUSTED = ["correspondence: the generated FloScript is built by the real Builder and run by the real Skedder of the working "
+               "tree (+ fixes D12a, D12b); observation through doify deeds only (recorder, counting deed, end-of-tick "
+               "observer reading the live Framer / Frame / Act objects); compared line by line with the Lean interpreter "
+               "(driver engine 'clones')",
+               "clause text -> relative path (Builder.parseIndirect) is taken from C13; tokenizer C16; literals C17",
+               "CPython copy.deepcopy, odict order, str.join/split"]
+    PARTIAL = ["C12_clone_runs_like_original_partial: behavioural equality is proved for the entry points of one clone under "
+               "a store relation; see Props/C12.lean for the exact hypotheses",
+               "the model keeps integer `value` fields only; CloneError branches of Frame.clone / Act.clone for already "
+               "resolved links are folded into one test (unreachable: only moots are cloned and moots are never resolved); "
+               "conditional auxiliaries, beacts, bids, slaves and `under` are not in the modelled subset (clones cannot be "
+               "conditional auxiliaries)",
+               "D5 (a moot that clones itself never finishes building) belongs to C14 and is not generated; in the model it "
+               "is Err.fuel"]
+    TECHNIQUE = "Lean 4 theorems on a transcribed clone / rear / raze model + differential and metamorphic correspondence"
+    LEVEL_TEXT = ("see Props/C12.lean")
+    LEVEL_NOTE = ("Trusted: Lean kernel; axioms propext, Classical.choice, Quot.sound; hand transcription validated only by the "
+                  "correspondence runs on /repo + fixes D12a, D12b.")
+
+    # ---- cases
+    def generate(self, rng, n, tier):
+        for _ in range(n):
+            p = gen_prog(rng)
+            if rng.random() < 0.1:
+                p = malform(rng, p)
+            yield {"prog": p, "pick": rng.randrange(1 << 30)}
+
+    def impl(self, case):
+        lines, _ = run_real(case["prog"])
+        errs = [l for l in lines if l.startswith("ERR")]
+        if errs:                      # a run-time exception ends the run: only its kind is compared
+            return [lines[0], errs[0]]
+        return list(lines)
+
+    def requests(self, case):
+        return [encode(case["prog"])]
+
+    def model_post(self, case, replies):
+        return replies[0].split("|")
+
+    # ---- oracle
+    def oracle(self, case, out):
+        if out and out[0].startswith("HARNESS-EXC"):
+            return "implementation adapter raised: " + out[0]
+        prog = case["prog"]
+        lines, obs = run_real(prog)
+        if obs is None:
+            return None                                   # does not build: nothing to say (C14)
+        errs = [l for l in lines if l.startswith("ERR")]
+        if errs:
+            if "CloneError" in errs[0] and not prog.get("malformed"):
+                return "O3: a run-time `rear` raised CloneError: the name of a razed clone (or of a clone below it) was not freed"
+            return None                                   # other run-time errors: the model must predict them (stage B)
+        why = relative_refs_ok(obs)
+        if why:
+            return why
+        why = self.raze_ok(prog, lines, obs)
+        if why:
+            return why
+        if prog.get("shared_reads") or prog.get("malformed"):
+            return None
+        why = self.alone_ok(case, prog, lines, obs)
+        if why:
+            return why
+        return self.reared_ok(case, prog, lines, obs)
+
+    # O3
+    def raze_ok(self, prog, lines, obs):
+        ticks = split_ticks(lines)
+        snaps = obs.snaps
+        info = obs.info
+        balance = {}
+        checked = {}
+        for fr in prog["framers"]:
+            for f in fr["frames"]:
+                recs = {(it["ctx"], it["a"]["tag"]) for it in f["items"] if it["t"] == "act" and it["a"]["k"] == "rec"}
+                checked[(fr["name"], f["name"])] = ("enter", "e") in recs and ("exit", "x") in recs
+        defof = {}
+        for t in range(len(snaps)):
+            snap = snaps[t]
+            prev = snaps[t - 1] if t > 0 else None
+            tick_lines = ticks[t][1] if t < len(ticks) else []
+            for u, nm in snap["live"].items():
+                defof[nm] = info[u]["def"]
+            evs = [l for l in tick_lines if l.startswith("E ")]
+            whos = obs.who[t] if t < len(obs.who) else []
+            for l, who in zip(evs, whos):
+                u = next((i for i, x in enumerate(obs.seen) if x is who), None)
+                if u is None or prev is None:
+                    continue                      # never seen by the observer before: made in this tick
+                was = [k for k in range(t) if u in snaps[k]["live"]]
+                if was and u not in prev["live"]:
+                    return "O3: tick %d: %s produces an event (%s) although that framer object left the aux lists in tick %d (a razed clone ran again)" % (t, info[u]["name"], l, max(was) + 1)
+            for l in evs:
+                _, fr, f, ctx, tag = l.split(" ")
+                if ctx == "enter" and tag == "e":
+                    balance[(fr, f)] = balance.get((fr, f), 0) + 1
+                elif ctx == "exit" and tag == "x":
+                    balance[(fr, f)] = balance.get((fr, f), 0) - 1
+            # entered frames = active outlines of the live objects
+            active = {}
+            for l in tick_lines:
+                if l.startswith("S "):
+                    parts = l.split(" ")
+                    acts = parts[4].split("=", 1)[1]
+                    for f in ([] if acts == "~" else acts.split(">")):
+                        active[(parts[1], f)] = 1
+            for key, b in balance.items():
+                d = defof.get(key[0])
+                if d is None or not checked.get((d, key[1])):
+                    continue
+                if b != active.get(key, 0):
+                    if key[0] not in set(snap["live"].values()):
+                        return "O3: tick %d: frame %s of %s was entered %d time(s) more than exited, and %s is no longer in any aux list (razed without being exited)" % (t, key[1], key[0], b, key[0])
+                    return "O3: tick %d: frame %s of %s: enters - exits = %d but it is %sin the active outline" % (t, key[1], key[0], b, "" if active.get(key) else "not ")
+            if prev is None:
+                continue
+            for (owner, frame), lst in prev["auxes"].items():
+                now = snap["auxes"].get((owner, frame))
+                if now is None:
+                    continue                          # the owner itself went away
+                for u in lst:
+                    if u not in now and not (info[u]["insular"] and info[u]["razeable"]):
+                        return "O3: tick %d: %s (insular=%s razeable=%s) was removed from frame %s of %s" % (
+                            t, info[u]["name"], info[u]["insular"], info[u]["razeable"], frame, info[owner]["name"])
+            dead = [u for u in prev["live"] if u not in snap["live"]]
+            for u in dead:
+                nm = info[u]["name"]
+                if nm in snap["names"] and nm not in set(snap["live"].values()):
+                    return "O3: tick %d: %s left the aux lists but its name is still registered (not free for the next rear)" % (t, nm)
+        return None
+
+    # O1
+    def alone_ok(self, case, prog, lines, obs):
+        sites = []
+        for hi, fr in enumerate(prog["framers"]):
+            if fr["sched"] != "active":
+                continue
+            for fi, f in enumerate(fr["frames"]):
+                for ii, it in enumerate(f["items"]):
+                    if it["t"] == "aux" and it.get("as"):
+                        if it["as"] == "mine":
+                            # removing an automatic tag renumbers the other automatic tags of the same original
+                            others = sum(1 for g in fr["frames"] for x in g["items"]
+                                         if (x["t"] == "aux" and x.get("as") == "mine" and x["of"] == it["of"])
+                                         or (x["t"] == "act" and x["a"]["k"] == "rear" and x["a"]["of"] == it["of"]))
+                            if others > 1:
+                                continue
+                        sites.append((hi, fi, ii))
+        if not sites:
+            return None
+        import random
+        r = random.Random(case.get("pick", 0))
+        r.shuffle(sites)
+        ev = events_of(lines)
+        vals = [l for l in lines if l.startswith("V framer.")]
+        for (hi, fi, ii) in sites[:2]:
+            p2, aname, cname = alone_program(prog, hi, fi, ii)
+            lines2, obs2 = run_real(p2)
+            if obs2 is None or any(l.startswith("ERR") for l in lines2):
+                return "O1: the program no longer builds / runs when clone %s is replaced by the original as an ordinary auxiliary (%s)" % (cname, lines2[-1])
+            ev2 = [(t, rename_prefix(fr, aname, cname), f, c, tag) for (t, fr, f, c, tag) in events_of(lines2)]
+            if ev2 != ev:
+                k = next((i for i, (a, b) in enumerate(zip(ev, ev2)) if a != b), min(len(ev), len(ev2)))
+                a = ev[k] if k < len(ev) else None
+                b = ev2[k] if k < len(ev2) else None
+                return "O1: clone %s vs its original alone: event %d is %s with the clone and %s with the original" % (cname, k, a, b)
+            vals2 = []
+            for l in lines2:
+                if l.startswith("V framer."):
+                    head, rest = l[2:].split(" ", 1)
+                    segs = head.split(".")
+                    segs[1] = rename_prefix(segs[1], aname, cname)
+                    vals2.append("V %s %s" % (".".join(segs), rest))
+            if sorted(vals2) != sorted(vals):
+                d = sorted(set(vals) ^ set(vals2))
+                return "O1: clone %s vs its original alone: relative shares differ: %s" % (cname, d[:4])
+        return None
+
+    # O4
+    def reared_ok(self, case, prog, lines, obs):
+        hosts = {fr["name"] for fr in prog["framers"] if fr["sched"] == "active"}
+        ev = events_of(lines)
+        life = {}
+        for t, snap in enumerate(obs.snaps):
+            for u in snap["live"]:
+                life.setdefault(u, [t, t])[1] = t
+        done = 0
+        for u, inf in obs.info.items():
+            if not inf["razeable"] or u not in life:
+                continue
+            nm = inf["name"]
+            parent = nm.rsplit("_", 1)[0]
+            if parent not in hosts or done >= 2:
+                continue
+            b, d = life[u]
+            # another incarnation of the same name whose life touches this one makes attribution ambiguous: skip
+            if any(v != u and obs.info[v]["name"] == nm and life.get(v) and not (life[v][1] < b - 1 or life[v][0] > d + 1)
+                   for v in obs.info):
+                continue
+            mine = [(t, rename_prefix(fr, nm, "Q"), f, c, tag) for (t, fr, f, c, tag) in ev
+                    if (fr == nm or fr.startswith(nm + "_")) and b <= t <= d + 1]
+            if not mine:
+                continue
+            mainframe = None
+            for (owner, frame), lst in obs.snaps[b]["auxes"].items():
+                if u in lst:
+                    mainframe = (obs.info[owner]["name"], frame)
+            if mainframe is None:
+                continue
+            entries = [e for e in ev if e[1] == mainframe[0] and e[2] == mainframe[1] and e[3] == "enter" and e[4] == "e"
+                       and b <= e[0] <= d + 1]
+            if len(entries) != 1:
+                continue
+            done += 1
+            ref_lines, ref_obs = run_real(forever_program(prog, inf["def"]))
+            if ref_obs is None or any(l.startswith("ERR") for l in ref_lines):
+                return "O4: the original %s does not run as an ordinary auxiliary (%s)" % (inf["def"], ref_lines[-1])
+            qn = "q" + inf["def"]
+            ref = [(t, rename_prefix(fr, qn, "Q"), f, c, tag) for (t, fr, f, c, tag) in events_of(ref_lines)
+                   if fr == qn or fr.startswith(qn + "_")]
+            ref = [(x[0] - ref[0][0],) + tuple(x[1:]) for x in ref] if ref else ref
+            t0 = mine[0][0]
+            rel = [(x[0] - t0,) + tuple(x[1:]) for x in mine]
+            last = rel[-1][0]
+            body = list(rel)
+            while body and body[-1][0] == last and body[-1][3] == "exit":
+                body.pop()
+            if body != ref[:len(body)]:
+                k = next((i for i, (a, bb) in enumerate(zip(body, ref)) if a != bb), min(len(body), len(ref)))
+                return "O4: reared clone %s: event %d is %s, the original alone gives %s" % (
+                    nm, k, body[k] if k < len(body) else None, ref[k] if k < len(ref) else None)
+        return None
+
+    # ---- bookkeeping
+    def nontrivial(self, case, out):
+        return bool(out) and out[0] == "BUILD ok" and any(l.startswith("E ") and "_" in l.split(" ")[1] for l in out)
+
+    def bucket(self, case, out):
+        prog = case["prog"]
+        if prog.get("malformed"):
+            return "malformed:%s:%s" % (prog["malformed"], out[0].replace("BUILD ", "").replace(" ", "-") if out else "?")
+        if not out or out[0] != "BUILD ok":
+            return "build-" + (out[0] if out else "?")
+        if len(out) == 2 and out[1].startswith("ERR"):
+            return "run-" + out[1].replace(" ", "-")
+        tags = []
+        if any(" r=1 " in l for l in out if l.startswith("F ")):
+            tags.append("reared")
+        names = [l for l in out if l.startswith("N ")]
+        if any(len(a) > len(b) for a, b in zip(names, names[1:])):
+            tags.append("razed")
+        if any(l.startswith("F ") and l.split(" ")[1].count("_") >= 2 for l in out):
+            tags.append("nested")
+        if any(" i=1 r=0 " in l for l in out if l.startswith("F ")):
+            tags.append("mine")
+        return "ok:" + ("+".join(tags) or "static")
+
+    def shrink_candidates(self, case):
+        prog = case["prog"]
+
+        def variant(p):
+            c = dict(case)
+            c["prog"] = p
+            return c
+        if prog["ticks"] > 2:
+            p = copy.deepcopy(prog)
+            p["ticks"] -= 1
+            yield variant(p)
+        for i, fr in enumerate(prog["framers"]):
+            if fr["sched"] != "active" or sum(1 for x in prog["framers"] if x["sched"] == "active") > 1:
+                p = copy.deepcopy(prog)
+                del p["framers"][i]
+                yield variant(p)
+        for i, fr in enumerate(prog["framers"]):
+            for j, f in enumerate(fr["frames"]):
+                if len(fr["frames"]) > 1:
+                    p = copy.deepcopy(prog)
+                    del p["framers"][i]["frames"][j]
+                    for g in p["framers"][i]["frames"]:
+                        if g.get("over") == f["name"]:
+                            g["over"] = None
+                    if p["framers"][i].get("first") == f["name"]:
+                        p["framers"][i]["first"] = None
+                    yield variant(p)
+                for k, it in enumerate(f["items"]):
+                    if it["t"] == "act" and it["a"]["k"] == "rec" and it["a"]["tag"] in ("e", "x"):
+                        continue
+                    p = copy.deepcopy(prog)
+                    del p["framers"][i]["frames"][j]["items"][k]
+                    yield variant(p)
+                if f.get("via"):
+                    p = copy.deepcopy(prog)
+                    p["framers"][i]["frames"][j]["via"] = None
+                    yield variant(p)
+            if fr.get("via"):
+                p = copy.deepcopy(prog)
+                p["framers"][i]["via"] = None
+                yield variant(p)
